@@ -7,7 +7,9 @@ POOL_PLAIN = ['HP:%07d' % i for i in range(1, 200)]
 POOL_MIXED = ['HP:10', 'HP:9', 'HP_010', 'MP:1', 'owl:Thin', 'HP:é', 'A_B:1', 'ZZ:0', 'HP:1', 'HP_02', 'MP_010', 'hp:1',
               'owl:Thinh', 'HP:0000118', 'NCIT_C3117', 'SNOMEDCT_US:128613002', 'HP:', ':1', 'ß:ü', 'HP:100', 'HP:09',
               'MP:9', 'MP:10', 'a:b', 'a:B', 'A:b', 'Z:9', 'HP:2', 'HP:3', 'HP:4', 'HP:5', 'HP:6', 'HP:7', 'HP:8',
-              'HP:11', 'HP:12', 'HP:13', 'HP:14', 'HP:15', 'HP:16'] + ['MP:%03d' % i for i in range(100, 260)]
+              'HP:11', 'HP:12', 'HP:13', 'HP:14', 'HP:15', 'HP:16',
+              # one prefix a proper prefix of another, continued by a character that sorts below ':' (the CURIE string order differs from (prefix, id) order)
+              'ICD:9', 'ICD10:A', 'HP2:1', 'HP-X:1', 'HP.1:0', 'MP0:7', 'a1:b', 'ICD:100', 'ICD1:0'] + ['MP:%03d' % i for i in range(100, 260)]
 
 
 def key_of(curie):
